@@ -93,7 +93,7 @@ func runEnumerated(t *testing.T, cfg mg.Config, idx []int) {
 			alters = true
 		}
 	}
-	if alters && os.Getenv("C16_STRICT") == "" {
+	if alters {
 		cs.Tolerate = []string{"disjoint"}
 	}
 	out := checkHistory(cs)
